@@ -752,6 +752,14 @@ class Engine:
             if pytype(a) == BOOL and pytype(b) == BOOL:
                 return zterm(a, BOOL) == zterm(b, BOOL)
             raise Unsupported('`is` on symbolic non-bool values')
+        # type(<stub object of an external class X>) is <module>.X
+        for x, y in ((a, b), (b, a)):
+            tags = getattr(x, 'tags', None)
+            if tags and isinstance(tags, tuple) and isinstance(tags[0], str) and tags[0].startswith('stub:'):
+                if isinstance(y, ModRef):
+                    return y.dotted.split('.')[-1] == tags[0][5:]
+                if isinstance(y, Builtin) and not getattr(y, 'tags', None) and '.' in getattr(y, 'name', ''):
+                    return y.name.split('.')[-1] == tags[0][5:]
         return a is b or (isinstance(a, (bool, int, str)) and type(a) is type(b) and a == b and isinstance(a, bool))
 
     def equals(self, a, b):
